@@ -473,6 +473,8 @@ def u_optimiser_iterations(ctx):
                 states.append(st)
         finally:
             cls.train = orig_train
+        if i % 4 == 3:
+            jax.clear_caches()  # every case compiles its own programs; thousands of live executables exhaust the mappings
         if len(calls) != n_it:
             ctx.inconc(f"train() wrapper saw {len(calls)} calls in {n_it} iterations")
             continue
